@@ -15,6 +15,7 @@ import time
 import traceback
 
 from .common import Outcome
+from .attach import AttachError
 
 _current = [None]
 
@@ -40,6 +41,8 @@ def _worker(fn, payload, conn, marker_path):
     try:
         out = fn(payload)
         conn.send(('ok', pickle.dumps(out)))
+    except AttachError as e:
+        conn.send(('attach', str(e)))
     except BaseException:  # noqa
         conn.send(('err', traceback.format_exc()))
     finally:
@@ -80,6 +83,9 @@ def run_chunks(fn, payloads, workers, limit_s=240):
                     if kind == 'ok':
                         durations.append(time.time() - t0)
                         total.merge(pickle.loads(data))
+                    elif kind == 'attach':
+                        total.diffs.append({'case': {'chunk': repr(payload)}, 'impl': data, 'model': None,
+                                            'where': 'cannot attach the instrumentation: ' + data})
                     else:
                         errors.append(data)
                     del live[idx]
